@@ -463,6 +463,16 @@ try:
             except IndexError:
                 pass
             raise Boom()
+        elif mode in ("meanfield-many", "meanfield-many-fail"):
+            # mean-field TEMPO with several species, returning / failing in the field equation; the objects stay referenced
+            def eom(t, states, a):
+                n[0] += 1
+                if mode.endswith("fail") and n[0] == 4: raise Boom()
+                return -0.1 * a + 0.1 * sum(np.trace(x @ oqupy.operators.sigma("z")) for x in states)
+            ss = [oqupy.TimeDependentSystemWithField(lambda t, a, k=k: (0.3 + 0.1 * k) * oqupy.operators.sigma("x") + 0.1 * a.real * oqupy.operators.sigma("z")) for k in range(3)]
+            KEEP = oqupy.MeanFieldTempo(oqupy.MeanFieldSystem(ss, field_eom=eom), [bath] * 3, par, [rho] * 3, 0.1 + 0j, 0.0); n[0] = 0
+            KEEP.compute(0.4, progress_type="bar")
+            raise Boom()
         elif mode == "stress":
             import oqupy.util as u, random
             real = threading.Timer
@@ -614,7 +624,7 @@ def run(chk):
         outil.PROGRESS_DICT.pop("rec", None)
 
     # ---- (iv) runtime: real Timer threads in a child interpreter ---------------------------
-    for mode in ["tempo", "dynamics", "brokenstream", "tebd-threads", "tebd-threads-fail"] + ["stress"] * (3 if thorough else 1):
+    for mode in ["tempo", "dynamics", "brokenstream", "tebd-threads", "tebd-threads-fail", "meanfield-many", "meanfield-many-fail"] + ["stress"] * (3 if thorough else 1):
         alive, grew, err = run_child(mode, chk.seed)
         chk.search_cases += 1
         info = {"kind": "runtime", "mode": mode, "threads_alive": alive, "output_grew": grew}
@@ -624,7 +634,8 @@ def run(chk):
         elif alive or grew:
             key = {"tempo": "thread-left:Tempo.compute", "dynamics": "exit-skipped:compute_dynamics", "stress": "timer-race",
                    "brokenstream": "thread-left:failing-output-stream", "tebd-threads": "thread-left:PtTebd-multithread",
-                   "tebd-threads-fail": "thread-left:PtTebd-multithread"}[mode]
+                   "tebd-threads-fail": "thread-left:PtTebd-multithread", "meanfield-many": "thread-left:MeanFieldTempo-several-species",
+                   "meanfield-many-fail": "thread-left:MeanFieldTempo-several-species"}[mode]
             chk.fail(key, f"{mode}: {alive} thread(s) still alive after the call returned/raised; output grew by {grew} bytes afterwards", info)
 
     vals, errs = run_cases("C19", HEADER, exprs, chunk=400)
